@@ -79,8 +79,8 @@ struct Params {
   int sampled_per_point = 1;
   long max_images = 300;         // per history
   bool followup = true;
-  bool nested = false;
-  long max_nested = 0;
+  int nested_every = 0;          // every n-th image also gets second-level crash points inside its recovery
+  long max_nested = 12;
 };
 
 class CrashRunner {
@@ -478,6 +478,8 @@ class CrashRunner {
     opts.build(c);
     io_reset();
     io_set_root(img);
+    bool do_nested = P.nested_every > 0 && (images_done % P.nested_every) == 0;
+    if (do_nested) io_record(true, false);
     SchedConfig sc;
     sc.strategy = ST_EAGER;
     sc.step_limit = 20000000;
@@ -486,6 +488,8 @@ class CrashRunner {
     sched_call_begin();
     int rc = ldb_open(img.c_str(), &opts.opt, &db);
     sched_call_end();
+    std::vector<IoEvent> rtrace;
+    if (do_nested) { sched_quiesce(); rtrace = io_trace(); io_record(false); }
     if (rc != LDB_OK) {
       sched_end();
       VF_FAIL("C05", "%s: ldb_open fails with rc=%d", what.c_str(), rc);
@@ -555,6 +559,7 @@ class CrashRunner {
       }
     }
     std::map<std::string, std::string> want = fold(r.T);
+    const std::map<std::string, std::string> want0 = want;
     try {
       compare_contents(r.user, want, what, "C05");
       // point lookups agree with the scan
@@ -619,6 +624,7 @@ class CrashRunner {
     sched_call_end();
     int blocked = sched_end();
     if (blocked) VF_FAIL("C09", "%s: %d thread(s) blocked after closing the recovered database", what.c_str(), blocked);
+    if (do_nested && !rtrace.empty()) nested_crashes(m, im, rtrace, c, r.T, want0, what);
     opts.clear();
     // ---- evidence bookkeeping
     rep->count("images");
@@ -634,6 +640,72 @@ class CrashRunner {
     if (ic.current_switch) rep->count("class.current_switch_in_progress");
     if (ic.orphan) rep->count("class.orphan_table");
     if (t) rep->count(std::string("phase.") + io_kind_name(trace[t - 1].kind) + "." + io_file_class(trace[t - 1].path));
+  }
+
+  // Second-level crash points: the recovery of an image is itself a recorded trace starting from a state in which
+  // every byte of the image is durable.  Crashing anywhere inside it and recovering again must lose nothing further:
+  // the same batches survive as after the completed first-level recovery.
+  void nested_crashes(const FsModel &m, const FsImage &im, const std::vector<IoEvent> &rtrace, const DbConfig &c,
+                      const std::set<int> &T1, const std::map<std::string, std::string> &want0, const std::string &what) {
+    std::string base = img + ".base", img2 = img + ".n";
+    rm_rf(base);
+    if (!m.materialise(im, base)) return;
+    FsModel nm;
+    nm.init_from_dir(base);
+    rm_rf(base);
+    std::vector<size_t> points;
+    { FsModel probe = nm; for (size_t ev = 0; ev < rtrace.size(); ev++) if (probe.apply(rtrace[ev], ev)) points.push_back(ev + 1); }
+    uint64_t rng = im.hash ^ 0xabcdef;
+    // every point when few, otherwise a seeded sample
+    std::set<size_t> chosen;
+    if ((long)points.size() <= P.max_nested) chosen.insert(points.begin(), points.end());
+    else while ((long)chosen.size() < P.max_nested) chosen.insert(points[splitmix(rng) % points.size()]);
+    size_t ev = 0;
+    std::set<uint64_t> seen;
+    for (size_t t2 : chosen) {
+      while (ev < t2) { nm.apply(rtrace[ev], ev); ev++; }
+      for (int kind = 0; kind < 4; kind++) {
+        FsImage ni = nm.canonical(kind);
+        if (!seen.insert(ni.hash).second) continue;
+        rm_rf(img2);
+        if (!nm.materialise(ni, img2)) continue;
+        std::string w2 = what + sfmt("; then crash inside that recovery at its event %zu (after `%s`), %s image", t2, io_event_str(rtrace[t2 - 1]).c_str(), ni.kind.c_str());
+        DbOptions o2;
+        o2.build(c);
+        io_reset();
+        io_set_root(img2);
+        SchedConfig sc;
+        sc.strategy = ST_EAGER;
+        sc.step_limit = 20000000;
+        sched_begin(sc);
+        ldb_t *db = nullptr;
+        sched_call_begin();
+        int rc = ldb_open(img2.c_str(), &o2.opt, &db);
+        sched_call_end();
+        if (rc != LDB_OK) { sched_end(); rm_rf(img2); VF_FAIL("C05", "%s: ldb_open fails with rc=%d", w2.c_str(), rc); }
+        try {
+          Recovered r2 = read_back(db, w2);
+          if (r2.T != T1) {
+            int miss = -1;
+            for (int i : T1) if (!r2.T.count(i)) { miss = i; break; }
+            VF_FAIL("C05", "%s: batches surviving differ from the completed first recovery (%zu vs %zu%s)", w2.c_str(), r2.T.size(), T1.size(), miss >= 0 ? sfmt("; batch %d lost", miss).c_str() : "");
+          }
+          compare_contents(r2.user, want0, w2, "C05");
+        } catch (...) {
+          sched_call_begin(); ldb_close(db); sched_call_end(); sched_end();
+          rm_rf(img2);
+          throw;
+        }
+        sched_call_begin();
+        ldb_close(db);
+        sched_call_end();
+        sched_end();
+        rep->count("nested_images");
+        rep->fp("C05.nt", fnv1a(sfmt("n/%016llx/%zu/%016llx", (unsigned long long)im.hash, t2, (unsigned long long)ni.hash)));
+      }
+    }
+    rm_rf(img2);
+    rep->count("nested_recoveries");
   }
 
   bool in_multi_syscall_op(size_t t) {
@@ -764,6 +836,7 @@ static Params params_for(const std::string &kind_in) {
   p.kind = kind;
   p.max_images = thorough ? 4000 : 350;
   if (kind == "C03") { p.only_maximal = true; p.max_images = thorough ? 3000 : 400; }
+  if (kind == "C05" || kind == "C03") { p.nested_every = thorough ? 6 : 25; p.max_nested = thorough ? 60 : 12; }
   if (kind == "C04") { p.sampled_per_point = 2; }
   if (thorough) p.sampled_per_point = 3;
   return p;
